@@ -114,7 +114,7 @@ def _argdiffs(E, old_args):
     return ad
 
 
-@task("dist.update", props=["C01", "C02", "C05", "C06", "C08", "C35", "C23"], functions=FUNCS)
+@task("dist.update", props=["C01", "C02", "C05", "C06", "C08", "C24", "C35", "C23"], functions=FUNCS)
 def t_update(E):
     z3 = E.z3
     T = E.I.T
@@ -136,8 +136,8 @@ def t_update(E):
     E.prove("C05.Distribution.edit_update.args", E.eq(E.method(new, "get_args"), a1))
     E.prove("C05.Distribution.edit_update.choices", E.eq(E.method(new, "get_retval"), newval))
     E.prove("C05.Distribution.edit_update.weight_is_score_change",
-            E.eq(w, E.I.binop("Sub", E.method(new, "get_score"), E.method(old, "get_score"))))
-    E.prove("C05.Distribution.edit_update.new_score", E.eq(E.method(new, "get_score"), lp(E, d, newval, a1)))
+            E.eq(w, E.I.binop("Sub", E.method(new, "get_score"), E.method(old, "get_score"))), also=["C24"])
+    E.prove("C05.Distribution.edit_update.new_score", E.eq(E.method(new, "get_score"), lp(E, d, newval, a1)), also=["C24"])
     # backward constraint: previous value exactly where overwritten
     bc = fld(E, bwd, "constraint")
     bv = E.method(bc, "get_value")
